@@ -33,6 +33,22 @@ inline int atomicDec(int volatile* x) { return __sync_sub_and_fetch(x, 1); }
 #include "Mutex.h"
 #endif
 
+#ifdef ASL_VERIF
+// Verification hook (off unless ASL_VERIF is defined): every atomic step and every thread hand-over point is
+// announced to an optional observer, which a test harness may define to record or to control the schedule.
+// With no observer linked the weak symbol is null and each point is one predictable branch.
+extern "C" void asl_verif_point(int kind, const volatile void* obj) __attribute__((weak));
+#define ASL_VERIF_POINT(k, o) do { if (asl_verif_point) asl_verif_point((k), (const volatile void*)(o)); } while (0)
+#ifndef ASL_NO_ATOMIC_OPS
+inline int asl_verif_atomicInc(int volatile* x) { ASL_VERIF_POINT(1, x); int r = atomicInc(x); ASL_VERIF_POINT(3, x); return r; }
+inline int asl_verif_atomicDec(int volatile* x) { ASL_VERIF_POINT(2, x); int r = atomicDec(x); ASL_VERIF_POINT(3, x); return r; }
+#define atomicInc(x) asl_verif_atomicInc(x)
+#define atomicDec(x) asl_verif_atomicDec(x)
+#endif
+#else
+#define ASL_VERIF_POINT(k, o)
+#endif
+
 namespace asl {
 
 class AtomicCount
